@@ -257,6 +257,7 @@ pub fn run_batch(prop: &dyn Prop, opt: &Options) -> i32 {
                 }
             });
         }
+        let slow_ms: u64 = std::env::var("ZSIM_SLOW_MS").ok().and_then(|v| v.parse().ok()).unwrap_or(0);
         let mut handles = Vec::new();
         for wi in 0..opt.workers {
             let slot = &slots[wi];
@@ -273,7 +274,12 @@ pub fn run_batch(prop: &dyn Prop, opt: &Options) -> i32 {
                     slot.1.store(t0.elapsed().as_millis() as u64, Ordering::Relaxed);
                     slot.0.store(i as u64 + 1, Ordering::Relaxed);
                     let want_sample = i < 2 || i == n_sys || i == n_sys + 1 || i + 1 == n_jobs;
+                    let t_job = std::time::Instant::now();
                     let out = run_one(prop, tape_for(&jobs[i], opt.seed, id), false, want_sample);
+                    if slow_ms > 0 && t_job.elapsed().as_millis() as u64 >= slow_ms {
+                        // diagnostics only (stderr): which executions dominate a batch
+                        eprintln!("SLOW job {i}: {} ms, steps {}, tape starts {:?}", t_job.elapsed().as_millis(), out.steps, &out.tape[..out.tape.len().min(8)]);
+                    }
                     local.evals += 1;
                     local.digest = local.digest.wrapping_add(mix(mix(i as u64, out.hash), out.fail.is_some() as u64));
                     local.steps += out.steps;
